@@ -70,6 +70,34 @@ int main(int argc, char ** argv)
       }
     }
   }
+  if (shard == 4) {
+    // an incomplete request is not a request: without a daughter level (never set, or not set again after reset()) the rules name no
+    // transition - refused, whatever the defaults of the object are
+    for (int variant = 0; variant < 2; variant++) {
+      bxdecay0::decay0_generator G;
+      std::string e;
+      try {
+        if (variant == 1) {
+          G.set_decay_category(bxdecay0::decay0_generator::DECAY_CATEGORY_DBD);
+          G.set_decay_isotope("Se82");
+          G.set_decay_dbd_level(0);
+          G.set_decay_dbd_mode(bxdecay0::DBDMODE_4);
+          Tape t0(seed, 4243);
+          G.initialize(t0);
+          G.reset();
+        }
+        G.set_decay_category(bxdecay0::decay0_generator::DECAY_CATEGORY_DBD);
+        G.set_decay_isotope("Mo100");
+        G.set_decay_dbd_mode(bxdecay0::DBDMODE_1);
+        Tape t(seed, 4244);
+        G.initialize(t);
+      } catch (std::exception & x) {
+        e = x.what();
+      }
+      if (e.empty()) fprintf(OUT, "P a double-beta request without daughter level (%s) is accepted\n", variant ? "object reset before" : "new object");
+      else fprintf(OUT, "P ok\n");
+    }
+  }
   while (std::getline(in, line)) {
     idx++;
     if (line.empty() || (idx % nshards) != shard) continue;
